@@ -387,6 +387,9 @@ func checkC04(c *Check) {
 					if !ok || ns[len(ns)-1] != "Tag" {
 						return false
 					}
+					if cl := asCall(r); cl != nil && callName(&cl.Call) == "(reflect.Type).Field" && strip(cl.Call.Args[0]) == strip(idx) {
+						return true // t.Field(i).Tag read from the call's result directly
+					}
 					al, isAl := r.(*ssa.Alloc)
 					if !isAl {
 						return false
